@@ -2,10 +2,15 @@
 """Runs the registered quick checks against seeded changes (never committed to /repo).
 
 usage: tools/run_seeded.py import <worktree-out-dir>...     copy a confirmed seed into /verif/seeded/<id>/
+
        tools/run_seeded.py run [--all-checks] [--tier quick] <id>...   apply to /repo, run checks, revert
        tools/run_seeded.py table                                 rewrite /verif/seeded/RESULTS.md
 """
 import json, os, shutil, subprocess, sys, time
+
+# evidence and replays of runs against modified trees never go to /verif/evidence
+os.environ["VERIF_OUT"] = "/tmp/verif_modified_tree_out"
+os.makedirs(os.environ["VERIF_OUT"], exist_ok=True)
 
 ROOT = os.path.dirname(os.path.dirname(os.path.abspath(__file__)))
 SEEDED = os.path.join(ROOT, "seeded")
@@ -61,8 +66,8 @@ def do_run(ids, all_checks, tier):
                 print(f"{sid} {p}: {'CAUGHT' if det[p]['caught'] else ('missed' if rc == 0 else 'exit %d' % rc)} {classes[:2]}", flush=True)
         finally:
             sh(f"git -C {REPO} checkout -- .")
-            for f in os.listdir(os.path.join(ROOT, "replays")) if os.path.isdir(os.path.join(ROOT, "replays")) else []:
-                os.remove(os.path.join(ROOT, "replays", f))
+            for f in os.listdir(os.path.join(os.environ["VERIF_OUT"], "replays")) if os.path.isdir(os.path.join(os.environ["VERIF_OUT"], "replays")) else []:
+                os.remove(os.path.join(os.environ["VERIF_OUT"], "replays", f))
         json.dump(det, open(det_path, "w"), indent=1)
     do_table()
 
